@@ -379,7 +379,8 @@ func xval(ld *loaded, entry *ssa.Function, h *harnessSpec, params map[string]int
 			// native crash (e.g. stack overflow on a known finding): skip
 			continue
 		}
-		st := vm.Explore(vm.Config{Machine: ld.m, Entry: entry, Harness: h.Name, Workers: 1, Params: params, KnownOpen: map[string][]string{}, Concrete: nr.inputs, CollectObs: true, AllFailuresKnown: true})
+		nat0 := strings.Join(nr.trace, "\n") + "\n#" + strings.Join(dedupSorted(nr.fails), ",")
+		st := vm.Explore(vm.Config{Machine: ld.m, Entry: entry, Harness: h.Name, Workers: runtime.NumCPU(), Params: params, KnownOpen: map[string][]string{}, Concrete: nr.inputs, CollectObs: true, StopOnObs: nat0, AllFailuresKnown: true})
 		var nat string
 		match := false
 		// the native side free-runs the container's own goroutines (watchers): a
